@@ -19,7 +19,7 @@ CONSTANTS Universe,     \* selects the initial objects
 
 VARIABLES live, hist
 vars == <<live, hist>>
-View == live
+View == <<live, Len(hist)>>    \* the step bound depends on Len(hist)
 
 K1 == <<0,0,2,2>>          \* p = 1, 2 dofs
 K2 == <<0,0,1,2,2>>        \* p = 1, 3 dofs
